@@ -99,11 +99,25 @@ def explode(rj, begin, lifted):
     return out
 
 
+# mnemonics that exist in one mode only but are the same X86.tla definition at another count-register width
+_TWIN_ALIAS = {"jcxz": "jecxz", "jrcxz": "jecxz"}
+
+
 def twin_key(ins, mode):
+    """(mnemonic, prefix, condition, operand form) with the mode's default operand size written W for the
+    stack and branch instructions: the 32-bit instance and its amd64 twin run the same clauses of X86.tla."""
     form = ins.get("form", "")
     if ins["mn"] in ("push", "pop", "call", "jmp"):
         form = form.replace(str(mode), "W")
-    return "%s|%s|%s|%s" % (ins["mn"], ins.get("pfx", ""), ins.get("cc", ""), form)
+    return "%s|%s|%s|%s" % (_TWIN_ALIAS.get(ins["mn"], ins["mn"]), ins.get("pfx", ""), ins.get("cc", ""), form)
+
+
+def shape_key(key):
+    """the twin key without operand sizes (r8/r16/r32/r64 -> r, m16 -> m; rh, x, i, rel stay): X86.tla's clauses are
+    generic in the operand size (MC_X86 checks the flag / sub-register algebra per width), so a 32-bit form is
+    also admitted when its amd64 twin was grounded at another operand size"""
+    head, form = key.rsplit("|", 1)
+    return head + "|" + re.sub(r"\b([rm])(?:8|16|32|64|128|W)\b", r"\1", form)
 
 
 # ------------------------------------------------------------------------------------------------
@@ -115,6 +129,8 @@ def validate(ctx, paths, nshards, parallel=None, twin_filter=True):
     tags = collections.Counter()
     per_mn = collections.defaultdict(collections.Counter)
     unsure_forms, agreed_forms = set(), set()
+    unsure_shapes, agreed_shapes = set(), set()
+    unspec_why, not_accepted = collections.Counter(), collections.Counter()
     unsure_samples = []
     pending32 = []
     sessions = 0
@@ -146,14 +162,21 @@ def validate(ctx, paths, nshards, parallel=None, twin_filter=True):
             if b is None:
                 continue
             tags[tag] += 1
+            if tag == "UNSPEC":
+                w = re.findall(r'"([^"]*)"', m.group(3))
+                unspec_why[(w[1] if len(w) > 1 else "?") + (" [%s]" % b["ins"]["mn"] if len(w) > 1 and w[1].startswith(("not modelled", "no semantics")) else "")] += 1
+            elif tag == "NOTACCEPTED":
+                not_accepted["%d %s %s" % (b["mode"], b["ins"]["mn"], b["ins"].get("form", ""))] += 1
             key = twin_key(b["ins"], b["mode"])
             if tag == "UNSURE":
                 if b["mode"] == 64:
                     unsure_forms.add(key)
+                    unsure_shapes.add(shape_key(key))
                 if len(unsure_samples) < 10:
                     unsure_samples.append({"asm": b["asm"], "detail": core._unescape_tla_string(m.group(3).strip().strip('"'))[:600]})
-            elif tag == "JUDGED" and b["mode"] == 64:
+            elif tag == "GROUNDED" and b["mode"] == 64:
                 agreed_forms.add(key)
+                agreed_shapes.add(shape_key(key))
                 grounded64 += 1
         for rj in r.rejects:
             ln = rj.get("line")
@@ -169,24 +192,32 @@ def validate(ctx, paths, nshards, parallel=None, twin_filter=True):
                 for x in recs:
                     ctx.reject(x)
     dropped32 = 0
+    dropped_keys = set()
     for key, recs in pending32:
-        if not twin_filter or (key in agreed_forms and key not in unsure_forms):
+        sk = shape_key(key)
+        if not twin_filter or (key in agreed_forms and key not in unsure_forms) or \
+                (key not in unsure_forms and sk in agreed_shapes and sk not in unsure_shapes):
             for x in recs:
                 ctx.reject(x)
         else:
             dropped32 += 1
+            dropped_keys.add(key)
     ctx.traces += sessions
     ctx.extra["instances_by_mode_and_mnemonic"] = {m: dict(sorted(c.items())) for m, c in per_mn.items()}
     ctx.extra["cpu_events"] = dict(cpu_outcomes)
     ctx.extra["cpu_grounded_agree"] = grounded64
+    tags.pop("GROUNDED", None)                     # a cpu-event tag (counted in cpu_grounded_agree)
     ctx.extra["classification"] = dict(tags)
     ctx.extra["unspecified"] = tags["UNSPEC"] + tags["UNGROUNDED"]
+    ctx.extra["unspecified_by_reason"] = dict(sorted(unspec_why.items()))
+    ctx.extra["not_accepted_forms"] = dict(sorted(not_accepted.items()))
     ctx.extra["spec_unsure"] = tags["UNSURE"]
     ctx.extra["spec_unsure_samples"] = unsure_samples
     ctx.extra["not_accepted_by_lifter"] = tags["NOTACCEPTED"]
     ctx.extra["fault_agreed_not_judged"] = tags["FAULT"]
     ctx.extra["judged"] = tags["JUDGED"]
     ctx.extra["x86_32_rejected_instances_without_grounded_twin"] = dropped32
+    ctx.extra["x86_32_forms_without_grounded_twin"] = sorted(dropped_keys)[:60]
     ctx.extra["amd64_forms_grounded"] = len(agreed_forms)
     ctx.extra["amd64_forms_unsure"] = sorted(unsure_forms)
     return tags
